@@ -175,6 +175,22 @@ theorem disciplinedB_sound (ex : List (Cls × String)) (t : List Access) (h : di
     obtain ⟨h', hh, k, hk, hmu, hww⟩ := commonLockB_spec h2
     exact ⟨k, hk, h', hh, hmu.symm, hww.symm⟩
 
+/-- what `insertOkB` decides: some guard of the insert is held in write mode by every live writer of the class -/
+def InsertGuarded (t : List Access) (r : Insert) : Prop :=
+  ∃ m ∈ r.guards, ∀ b ∈ t, b.cls = r.cls → b.write = true → b.live = true → ∃ h ∈ b.held, h.mu = m ∧ h.w = true
+
+theorem insertOkB_sound (t : List Access) (ex : List (Cls × String)) (r : Insert) (h : insertOkB t ex r = true)
+    (hl : r.phase = Phase.live) (hx : (ex.any fun e => e.1 == r.cls && e.2 == r.fn) = false) : InsertGuarded t r := by
+  simp only [insertOkB, hl, hx, bne_self_eq_false, Bool.false_or, List.any_eq_true] at h
+  obtain ⟨m, hm, hall⟩ := h
+  refine ⟨m, hm, ?_⟩
+  intro b hb hc hw hlv
+  have := List.all_eq_true.mp hall b hb
+  simp only [hc, hw, hlv, bne_self_eq_false, Bool.and_self, Bool.not_true, Bool.false_or, heldIn, List.any_eq_true,
+    Bool.and_eq_true, beq_iff_eq] at this
+  obtain ⟨h', hh, h1, h2⟩ := this
+  exact ⟨h', hh, h1, h2⟩
+
 /-- a path of one or more lock-order edges -/
 inductive Path (es : List LockEdge) : Lock → Lock → Prop
   | single {a b : Lock} : (∃ e ∈ es, e.outer = a ∧ e.inner = b) → Path es a b
